@@ -1,3 +1,4 @@
 //! Reference models: independent of the library's matching code.
 pub mod pat;
 pub mod opts;
+pub mod safari_re;
